@@ -61,7 +61,7 @@ def dump_mir(logdir, crate="quinn-proto"):
     t0 = time.time()
     with open(out, "w") as fo, open(os.path.join(logdir, "mir_dump.log"), "w") as fe:
         rc = subprocess.call(["cargo", "+nightly", "rustc", "--offline", "-p", crate, "--lib", "--",
-                              "-Zunpretty=mir", "-Zmir-opt-level=2", "-Zinline-mir=yes", "-C", "overflow-checks=on", "-C", "debug-assertions=off"],
+                              "-Zunpretty=mir", "-Zmir-opt-level=2", "-Zinline-mir=yes", "-Zmir-include-spans=yes", "-C", "overflow-checks=on", "-C", "debug-assertions=off"],
                              cwd=ws, stdout=fo, stderr=fe, env=env)
     if rc != 0 or os.path.getsize(out) < 20000:
         raise RuntimeError("MIR dump failed (rc=%d), see %s" % (rc, os.path.join(logdir, "mir_dump.log")))
@@ -167,7 +167,22 @@ def check_query(q, funcs, enums, tier, logdir):
         if q.get("modifies"):
             ex.modifies = q["modifies"](ctx)
         ex.stop_at = list(q.get("stop_at", ()))
-        fn, paths = ex.run(q["func"])
+        sl = el = None
+        if q.get("start_line") or q.get("end_line"):
+            # slice of a large function, located through source text so that unrelated edits do not move it
+            src = os.path.join(REPO, q.get("crate", "quinn-proto"), "src", q["src"])
+            lines = open(src).read().splitlines()
+            def locate(rx, after=0):
+                hits = [i + 1 for i, l in enumerate(lines) if i + 1 > after and re.search(rx, l)]
+                if not hits:
+                    raise Untranslatable("source line /%s/ not found in %s" % (rx, q["src"]))
+                return hits[0]
+            base = locate(q["within"]) if q.get("within") else 0
+            if q.get("start_line"):
+                sl = (q["src"], locate(q["start_line"], base))
+            if q.get("end_line"):
+                el = (q["src"], locate(q["end_line"], sl[1] if sl else base))
+        fn, paths = ex.run(q["func"], sl, el)
         ctx.fn = fn
         pre = q["pre"](ctx)
         items = []
